@@ -357,6 +357,41 @@ func runC12(r *Run) {
 		checkDecodeReset(r, dc, cl.DecodeM, FieldVar(cl.Message, "Attributes"))
 		dc.Done()
 	}
+	// ---- an in-flight transaction stays findable until it is completed
+	iw := r.Rule("C12.inflight", "from Start until its completion a transaction is in the client table whenever a message can arrive: the callback takes it out of the table only to complete it (a removal that is followed by a re-registration leaves a window in which a response with its ID finds no transaction)", 1)
+	{
+		fn := m.Callback
+		var del *ssa.Call
+		for _, a := range sharedAccesses(fn, map[*types.Var]bool{m.Table: true}) {
+			if a.Kind == "mapdelete" {
+				del = a.In.(*ssa.Call)
+			}
+		}
+		if del == nil {
+			iw.Fail("removal in the callback", "not found")
+		} else {
+			reported := false
+			nPaths := 0
+			q := &PathQuery{P: p, Fn: fn, From: del, K: k}
+			q.Step = func(in ssa.Instruction, deferred bool, st uint64, c *PathCtx) (uint64, bool) {
+				if callsFn(in, m.Handle) {
+					return st | 1, false
+				}
+				if callsFn(in, m.Reg) && st&1 == 0 {
+					nPaths++
+					if !reported {
+						reported = true
+						iw.ViolationPath(fn, instrPos(in), "removed while only retransmitting", "for a timeout that merely triggers a retransmission the transaction is removed from the client table and registered again later: a response that arrives in between finds no transaction and goes to the fallback handler (or is dropped); the transaction goes on retransmitting and can end in a timeout although its response was received", c.Witness(fn, in))
+					}
+				}
+				return st, false
+			}
+			q.Run()
+			iw.Instance(fnName(fn), true, map[string]int{"re_registering_paths": nPaths})
+		}
+	}
+	iw.Done()
+
 	// the handler runs after the agent lock is released: a handler that starts a follow-up transaction must not block delivery (shared with C13)
 	r.Borrow("C13", map[string]string{"C13.order": "C12.order"})
 }
